@@ -5,24 +5,6 @@ Import ListNotations.
 From PP Require Import Model.C24 Model.C24_spec Proofs.C24_base Proofs.C24_sort Proofs.C24_inv
   Proofs.C24_step.
 
-Lemma kdel_nonempty g sp s :
-  Inv g sp -> intfs g <> [] -> kdel s (sds g) <> [].
-Proof.
-  intros HI Hne Hk. rewrite (inv_intfs _ _ HI) in Hne.
-  destruct (pI sp) as [|[i [a b]] r] eqn:E; [apply Hne; reflexivity|].
-  assert (Hl : lookup i (pI sp) = Some (a, b)) by (rewrite E; cbn; rewrite geqb_refl; reflexivity).
-  destruct (inv_wf _ _ HI i a b Hl) as (Hab & Ha & Hb & _).
-  rewrite <- (inv_sds _ _ HI) in Ha, Hb.
-  assert (Hn : NoDup (sds g)) by (rewrite (inv_sds _ _ HI); apply (inv_nd _ _ HI)).
-  assert (a = s).
-  { destruct (gid_dec a s); auto. exfalso.
-    assert (In a (kdel s (sds g))) by (apply kdel_In; auto). rewrite Hk in H. destruct H. }
-  assert (b = s).
-  { destruct (gid_dec b s); auto. exfalso.
-    assert (In b (kdel s (sds g))) by (apply kdel_In; auto). rewrite Hk in H0. destruct H0. }
-  congruence.
-Qed.
-
 (* tch through the invariant *)
 Lemma tch_spec g sp s i p :
   Inv g sp -> lookup i (pI sp) = Some p -> tch (i2s g) s i = touches s p.
@@ -61,9 +43,10 @@ Proof.
   intros HI Hok. cbn [okb] in Hok. pose proof Hok as Hs. apply mem_In in Hs.
   assert (Hn : NoDup (sds g)) by (rewrite (inv_sds _ _ HI); apply (inv_nd _ _ HI)).
   assert (HnI : NoDup (intfs g)) by (rewrite (inv_intfs _ _ HI); apply (inv_ndI _ _ HI)).
-  (* the listing of the interfaces after the subdomain has been deleted *)
-  destruct (argsort_gen (kdel s (sds g)) (intfs g) HnI (kdel_nonempty g sp s HI))
-    as (L & HL & HLn & HLin).
+  assert (Hs' : In s (sds g)) by (rewrite (inv_sds _ _ HI); auto).
+  (* the listing of the interfaces (the subdomain is still present) *)
+  destruct (argsort_gen (sds g) (intfs g) HnI) as (L & HL & HLn & HLin).
+  { intros _ E. rewrite E in Hs'. destruct Hs'. }
   (* the interfaces found *)
   assert (Hcol : collect (i2s g) s L = Ok (filter (tch (i2s g) s) L)).
   { apply collect_spec. intros i Hi. rewrite (inv_keys _ _ HI). apply HLin in Hi. tauto. }
@@ -76,13 +59,8 @@ Proof.
       { rewrite <- (inv_keys _ _ HI). apply lookup_keys. unfold tch in E2.
         destruct (lookup x (i2s g)); [discriminate | discriminate]. }
       split; auto.
-      destruct (stored_pair g sp x HI Hx) as (a & b & a' & b' & Hl & Hl' & Hu & Hab & Ha & Hb & Hda & Hdb).
-      unfold tch in E2. rewrite Hl' in E2. apply touches_iff in E2. cbn [fst snd] in E2.
-      destruct E2 as [-> | ->].
-      + assert (In b' (kdel s (sds g))) by (apply kdel_In; auto).
-        pose proof (dim_max_ge _ _ H). lia.
-      + assert (In a' (kdel s (sds g))) by (apply kdel_In; auto).
-        pose proof (dim_max_ge _ _ H). lia. }
+      destruct (stored_pair g sp x HI Hx) as (a & b & a' & b' & Hl & Hl' & Hu & Ha & Hb & Hda & Hdb).
+      pose proof (dim_max_ge _ _ Ha). lia. }
   destruct (del_intfs_spec rm (intfs g) (i2s g) HnI (inv_keys _ _ HI)) as (Hd1 & Hd2 & Hd3).
   destruct (del_intfs rm (intfs g) (i2s g)) as [k' m'] eqn:Ed. cbn [fst snd] in Hd1, Hd2, Hd3.
   assert (Hk' : k' = filter (fun i => negb (tch (i2s g) s i)) (intfs g)).
@@ -106,7 +84,7 @@ Proof.
   { intros j a b. cbn [sstep pS pI]. rewrite lookup_filter by apply (inv_ndI _ _ HI).
     destruct (lookup j (pI sp)) as [p|] eqn:E; [|discriminate]. cbn [snd].
     destruct (touches s p) eqn:Et; cbn; [discriminate|]. intros Hp; inversion Hp; subst.
-    destruct (inv_wf _ _ HI j a b E) as (H1 & H2 & H3 & H4 & H5 & H6).
+    destruct (inv_wf _ _ HI j a b E) as (H2 & H3 & H4 & H5 & H6).
     assert (Has : a <> s).
     { intros Heq; subst a. assert (touches s (s, b) = true) by (apply touches_iff; auto).
       congruence. }
@@ -118,12 +96,12 @@ Proof.
     destruct (lookup k (pI sp)) as [q|] eqn:E'; [|discriminate]. cbn [snd].
     destruct (touches s q); cbn; [discriminate|]. intros Hq; inversion Hq; subst. eapply H6; eauto. }
   assert (Hok' : mem s (sds g) = true) by (rewrite (inv_sds _ _ HI); exact Hok).
-  cbn [step]. unfold remove_subdomain. rewrite Hok'. cbn [negb].
-  unfold interfaces. cbn [sds intfs i2s s2b bgs nbg dim_filter]. rewrite HL, Hcol, Ed.
+  cbn [step]. unfold remove_subdomain, interfaces. cbn [dim_filter]. rewrite HL, Hcol, Hok'.
+  cbn [negb sds intfs i2s s2b bgs nbg]. rewrite Ed.
   unfold gdim. destruct (0 <? fst s) eqn:Ed0.
   - apply Nat.ltb_lt in Ed0.
     assert (Hsk : In s (map fst (s2b g))).
-    { apply (inv_bk _ _ HI). split; auto. rewrite (inv_sds _ _ HI); auto. }
+    { apply (inv_bk _ _ HI). split; auto. }
     destruct (In_keys_lookup _ _ Hsk) as (bg & Hbg). rewrite Hbg.
     destruct (inv_bi _ _ HI) as (B1 & B2 & B3 & B4 & B5).
     assert (Hbm : mem bg (bgs g) = true).
